@@ -22,8 +22,9 @@ TraceCfg(i) == LET c == Traces[i].cfg IN
     [T |-> c.T, tries |-> c.tries, bufcap |-> c.bufcap, v4 |-> c.v4,
      xid |-> [x \in Callers |-> IF x <= Len(c.xid) THEN c.xid[x] ELSE 0],
      urgent |-> c.urgent, timed |-> c.timed, cancelChecksIdentity |-> TRUE, timerPerIteration |-> FALSE,
-     maxCalls |-> 1000, wfault |-> TRUE,            \* the harness decides how often a caller calls and when a write fails
-     timeoutCarriesOver |-> FALSE, writeErrKeepsEntry |-> FALSE, fireRegisters |-> FALSE]
+     maxCalls |-> 1000, wfault |-> TRUE, rfault |-> TRUE,   \* the harness decides how often a caller calls and when a write or a read fails
+     timeoutCarriesOver |-> FALSE, writeErrKeepsEntry |-> FALSE, fireRegisters |-> FALSE,
+     readErrEndsCalls |-> FALSE, loopSurvivesClose |-> FALSE]
 
 TInit == /\ k \in 1..Len(Traces)
          /\ l = 1 /\ bad = FALSE
@@ -70,7 +71,7 @@ Consume ==
          [] E.a = "LoopLock" -> AtTime /\ LoopLock /\ E.found = (lp'.pc = "select")
          [] E.a = "LoopSelSend" -> AtTime /\ LoopSelSend /\ E.ent = LoopEntry
          [] E.a = "LoopSelDone" -> AtTime /\ LoopSelDone /\ E.ent = LoopEntry
-         [] E.a = "LoopExit" -> AtTime /\ LoopExit
+         [] E.a = "LoopExit" -> AtTime /\ (IF E.fault THEN LoopReadErr ELSE LoopExit)
          [] E.a = "CloseStart" -> AtTime /\ CloseStart
          [] E.a = "CloseDone" -> AtTime /\ CloseDone
          [] E.a = "CloseReturn" -> AtTime /\ CloseReturn
@@ -90,7 +91,7 @@ InvOK == bad \/ /\ Chk("OwnTransaction", OwnTransaction) /\ Chk("FirstAcceptable
                 /\ Chk("PendingEntriesLive", PendingEntriesLive) /\ Chk("Capacity", Capacity)
                 /\ Chk("IdReusable", IdReusable) /\ Chk("CloseStopsLoop", CloseStopsLoop)
                 /\ Chk("Deadline", Deadline) /\ Chk("CtxPrompt", CtxPrompt) /\ Chk("ClosePrompt", ClosePrompt)
-                /\ Chk("Schedule", Schedule) /\ Chk("NoRespAtBudget", NoRespAtBudget)
+                /\ Chk("Schedule", Schedule) /\ Chk("NoRespAtBudget", NoRespAtBudget) /\ Chk("DoneOnlyByClose", DoneOnlyByClose)
 
 Reject == /\ ~bad /\ l <= Len(Ev)
           /\ PrintT(<<"MISMATCH", Traces[k].id, l>>)
